@@ -22,8 +22,8 @@ from typing import Any, Callable, Dict, Iterable, List, Optional
 VERIF = Path(__file__).resolve().parent.parent
 LEAN = VERIF / "lean"
 REPO = Path(os.environ.get("VERIF_REPO", "/repo"))
-EVIDENCE = VERIF / "evidence"
-REPLAYS = VERIF / "replays"
+EVIDENCE = Path(os.environ.get("VERIF_EVIDENCE_DIR", str(VERIF / "evidence")))
+REPLAYS = Path(os.environ.get("VERIF_REPLAYS_DIR", str(VERIF / "replays")))
 CORPUS = VERIF / "corpus"
 KNOWN = VERIF / "known_findings.jsonl"
 
@@ -254,7 +254,7 @@ class Ctx:
             h = hashlib.sha1(json.dumps(v["key"], default=str).encode()).hexdigest()[:12]
             path = d / f"{h}.json"
             path.write_text(json.dumps({"property": self.id, "kind": "failing-input", **v, "all": self.violations, "broken": self.broken[:3]}, indent=1, default=str, ensure_ascii=False))
-            print(f"VIOLATION property={self.id} replay={path.relative_to(VERIF)}")
+            print(f"VIOLATION property={self.id} replay={relpath(path)}")
             rc = 1
         elif self.broken:
             found = None
@@ -272,13 +272,13 @@ class Ctx:
                 h = hashlib.sha1(json.dumps(found.get("key", found), default=str).encode()).hexdigest()[:12]
                 path = d / f"{h}.json"
                 path.write_text(json.dumps({"property": self.id, "kind": "failing-input", **found, "broken": self.broken[:3]}, indent=1, default=str, ensure_ascii=False))
-                print(f"VIOLATION property={self.id} replay={path.relative_to(VERIF)}")
+                print(f"VIOLATION property={self.id} replay={relpath(path)}")
             else:
                 b = self.broken[0]
                 h = hashlib.sha1(json.dumps(b, default=str, sort_keys=True).encode()).hexdigest()[:12]
                 path = d / f"broken-{h}.json"
                 path.write_text(json.dumps({"property": self.id, "kind": "no-failing-input-found", "no_longer_checks": self.broken, "notes": self.notes}, indent=1, default=str, ensure_ascii=False))
-                print(f"VIOLATION property={self.id} replay={path.relative_to(VERIF)} no-failing-input-found")
+                print(f"VIOLATION property={self.id} replay={relpath(path)} no-failing-input-found")
             rc = 1
         self.write_evidence(rc)
         return rc
@@ -313,6 +313,13 @@ class Ctx:
             "notes": self.notes,
         }
         (EVIDENCE / f"{self.id}.json").write_text(json.dumps(ev, indent=1, default=str, ensure_ascii=False) + "\n")
+
+
+def relpath(p: Path) -> str:
+    try:
+        return str(p.relative_to(VERIF))
+    except ValueError:
+        return str(p)
 
 
 def load_known(pid: str) -> Dict[str, Dict[str, Any]]:
